@@ -32,7 +32,7 @@ ASSUMPTIONS = ["a level mean m observed k levels below the top implies a remaini
                "k = 0, 1, 2 and alpha in {0.5, 0.75, 1, 1.5, 2} without reading its constant",
                "the allocation inequality is decided only for the vectors the runs produce plus the probe family"]
 TIERS = {
-    "quick": {"worlds": 600, "wall": 520, "shrink_budget": 50,
+    "quick": {"worlds": 900, "wall": 520, "shrink_budget": 50,
               "required_probes": ["c06.run_completed", "c06.alloc_calls", "c06.criteria_true", "c06.stopped_at_max_level",
                                   "c06.level_added", "c06.share_measured"]},
     "thorough": {"worlds": 30000, "wall": 3300, "shrink_budget": 150,
